@@ -109,6 +109,43 @@ theorem harm_le_geom (a b p q : ℝ) (ha : 0 < a) (hb : 0 < b) (hp : 0 < p) (hq 
     _ ≤ Real.exp ((p * Real.log a + q * Real.log b) / (p + q)) * (p / a + q / b) := by
         exact mul_le_mul_of_nonneg_right h3 hden.le
 
+/-- uniqueness (C04, C06, C08, C12, C17): a non-singular system has at most one solution, so two field vectors that
+satisfy the same (proved-identical) rows are equal. -/
+theorem unique_solution {n : Type*} [Fintype n] [DecidableEq n] (A : Matrix n n ℝ) (hA : IsUnit A.det)
+    (x y b : n → ℝ) (hx : A.mulVec x = b) (hy : A.mulVec y = b) : x = y := by
+  have hinj := (Matrix.mulVec_injective_iff_isUnit (A := A)).mpr ((Matrix.isUnit_iff_isUnit_det A).mpr hA)
+  exact hinj (hx.trans hy.symm)
+
+/-- row scaling and rescaling of the unknown preserve solutions (C03 lambda*(a,b,c); C17 change of units):
+if `A x = b`, every row `i` of `A'` is `r i` times row `i` of `A` with columns divided by `K ≠ 0`, and `b' i = r i * b i`,
+then `K • x` solves the primed system. -/
+theorem scaled_solution {n : Type*} [Fintype n] (A A' : Matrix n n ℝ) (x b b' r : n → ℝ) (K : ℝ) (hK : K ≠ 0)
+    (hA : ∀ i j, A' i j = r i * A i j / K) (hb : ∀ i, b' i = r i * b i) (hx : A.mulVec x = b) :
+    A'.mulVec (K • x) = b' := by
+  funext i
+  have h := congrFun hx i
+  simp only [Matrix.mulVec, dotProduct] at h ⊢
+  rw [hb i, ← h, Finset.mul_sum]
+  apply Finset.sum_congr rfl
+  intro j _
+  rw [hA i j]
+  simp only [Pi.smul_apply, smul_eq_mul]
+  field_simp
+
+/-- a property preserved by one step is preserved by any number of steps (C01: the domain integral; C07: the bounds;
+C08: a shift by s cells from the shift by one; C09: the representation invariant along a history). -/
+theorem invariant_iterate {α : Type*} (step : α → α) (P : α → Prop) (h : ∀ x, P x → P (step x)) (n : ℕ) (x : α)
+    (hx : P x) : P (step^[n] x) := by
+  induction n generalizing x with
+  | zero => simpa using hx
+  | succ k ih => rw [Function.iterate_succ_apply]; exact ih (step x) (h x hx)
+
+/-- a steady solution is a fixed point of the backward-Euler step (C12): if `S x = b` then `x` solves
+`(D + S) y = D x + b` for every diagonal `D = alpha/dt`; by `unique_solution` it is the only one. -/
+theorem steady_is_fixed_point {n : Type*} [Fintype n] [DecidableEq n] (S : Matrix n n ℝ) (d x b : n → ℝ)
+    (hx : S.mulVec x = b) : (Matrix.diagonal d + S).mulVec x = (Matrix.diagonal d).mulVec x + b := by
+  rw [Matrix.add_mulVec, hx]
+
 end FV
 
 #print axioms FV.dmp_upper
@@ -117,3 +154,7 @@ end FV
 #print axioms FV.flux_form_sum
 #print axioms FV.geom_le_arith
 #print axioms FV.harm_le_geom
+#print axioms FV.unique_solution
+#print axioms FV.scaled_solution
+#print axioms FV.invariant_iterate
+#print axioms FV.steady_is_fixed_point
